@@ -16,7 +16,7 @@ func init() {
 				W: map[string]int{
 					"app": 8, "ins": 6, "set": 7, "rem": 8, "pop": 1, "appN": 6, "remN": 4,
 					"mset": 12, "mrem": 8, "mpop": 1, "msetN": 5, "mremN": 3, "styp": 2, "reget": 1,
-					"commit": 9, "reopen": 3, "evict": 2, "crashchk": 6, "grow": 1, "mgrow": 1, "setN": 2, "mupdN": 2, "drop": 3,
+					"commit": 9, "reopen": 3, "evict": 2, "crashchk": 6, "grow": 1, "mgrow": 1, "setN": 2, "mupdN": 2, "drop": 3, "shrink": 1, "mshrink": 1,
 				},
 				Roots: [][]RootSpec{
 					{{K: "arr", Addr: 1, TI: 1}},
@@ -104,7 +104,7 @@ func init() {
 			g := scale(&GenCfg{
 				Slabs: quickSlabs, MinOps: 2, MaxOps: 60,
 				W: map[string]int{
-					"mset": 30, "mget": 5, "mhas": 3, "mrem": 16, "mpop": 1, "msetN": 8, "mremN": 8, "mgrow": 3, "mupdN": 3,
+					"mset": 30, "mget": 5, "mhas": 3, "mrem": 16, "mpop": 1, "msetN": 8, "mremN": 8, "mgrow": 3, "mupdN": 3, "mshrink": 3,
 					"mbadget": 2, "mbadrem": 2, "mbadhas": 1, "reopen": 2, "commit": 1, "evict": 1, "styp": 1,
 				},
 				Roots:   nil, // drawn per case (digester)
